@@ -63,6 +63,7 @@ OUTER:
 			return
 		}
 
+		verifAt("persister.begin", m)
 		startTime := time.Now()
 
 		atomic.AddUint64(&m.stats.TotPersisterLowerLevelUpdateBeg, 1)
@@ -74,11 +75,13 @@ OUTER:
 			m.Logf("collection: runPersister, LowerLevelUpdate, err: %v", err)
 
 			m.OnError(err)
+			verifAt("persister.failed", m)
 
 			continue OUTER
 		}
 
 		atomic.AddUint64(&m.stats.TotPersisterLowerLevelUpdateEnd, 1)
+		verifAt("persister.updated", m)
 
 		var stackDirtyBasePrev *segmentStack
 		var stackCleanPrev *segmentStack
@@ -126,6 +129,7 @@ OUTER:
 		atomic.AddUint64(&m.stats.TotPersisterLoopRepeat, 1)
 
 		m.fireEvent(EventKindPersisterProgress, time.Now().Sub(startTime))
+		verifAt("persister.end", m)
 	}
 
 	// TODO: More advanced eviction of stackClean.
